@@ -93,8 +93,14 @@ func Bindings(src string) (map[string]*Binding, error) {
 			ast.Inspect(fd.Body, func(n ast.Node) bool {
 				switch x := n.(type) {
 				case *ast.AssignStmt:
-					for _, l := range x.Lhs {
+					for li, l := range x.Lhs {
 						if se, ok := l.(*ast.SelectorExpr); ok {
+							if se.Sel.Name == "ServerStream" && li < len(x.Rhs) {
+								if v, ok := x.Rhs[li].(*ast.Ident); ok {
+									b := v.Name == "true"
+									get(name).ServerStream = &b
+								}
+							}
 							if se.Sel.Name == "PerNodeArgFn" {
 								get(name).SetsPerNode = true
 							}
@@ -228,7 +234,8 @@ func CheckBindings(fd *descriptorpb.FileDescriptorProto, src string) []string {
 				}
 			}
 			if o.Correctable {
-				if bi.ServerStream == nil || *bi.ServerStream != m.GetServerStreaming() {
+				// (a stub that does not mention the flag leaves it false)
+				if (bi.ServerStream != nil && *bi.ServerStream) != m.GetServerStreaming() {
 					bad = append(bad, fmt.Sprintf("%s: ServerStream flag does not match the declaration (stream=%v)", full, m.GetServerStreaming()))
 				}
 			}
